@@ -406,3 +406,23 @@ M("c18_leading_blank_rows_limit", "C18", "ak/xlsread.py",
 M("c18_range_set_origin_only_marked", "C18", "ak/xlsread.py",
   "            if self.cell_type.val_from_cell(cell)\n        }\n        attr_origins = {\n            cell_title: cell.coordinate\n            for cell_title, cell in zip(cells_titles, cells)\n        }",
   "            if self.cell_type.val_from_cell(cell)\n        }\n        attr_origins = {\n            cell_title: cell.coordinate\n            for cell_title, cell in zip(cells_titles, cells)\n            if cell.value is not None\n        }")
+
+# ---------------------------------------------------------------- C19
+M("c19_revert_idempotent_registration", "C19", "ak/cli_tools.py",
+  "        assert self._dependent_parsers.get(name, parser) is parser", "        assert name not in self._dependent_parsers")
+M("c19_ascendants_not_registered", "C19", "ak/cli_tools.py",
+  "                for parser in self.command_parsers.values():\n                    if p in parser._dependent_parsers:\n                        parser.register_dependent(parser_name, cmd_parser)",
+  "                pass")
+M("c19_double_propagation", "C19", "ak/cli_tools.py",
+  "                dependent_parser.add_argument(*args, _propagate=False, **kwargs)",
+  "                dependent_parser.add_argument(*args, _propagate=len(dependent_parser._dependent_parsers) == 1, **kwargs)")
+M("c19_default_inserted_for_options_of_first_command_only", "C19", "ak/cli_tools.py",
+  "                args.insert(0, self.default_command)", "                args.insert(0, next(iter(self.command_parsers)))")
+M("c19_global_option_skips_internal_parents_children", "C19", "ak/cli_tools.py",
+  "            for cmd_parser in self.command_parsers.values():\n                cmd_parser.add_argument(*args, _propagate=False, **kwargs)",
+  "            for cmd_parser in self.command_parsers.values():\n                if not cmd_parser._dependent_parsers or len(self.command_parsers) < 4:\n                    cmd_parser.add_argument(*args, _propagate=False, **kwargs)")
+M("c19_only_first_parent_registered", "C19", "ak/cli_tools.py",
+  "            for p in parents:\n                parent_parser = self.command_parsers[p]",
+  "            for p in sorted(parents)[:2]:\n                parent_parser = self.command_parsers[p]")
+M("c19_no_color_not_normalised", "C19", "ak/cli_tools.py",
+  "        if args.no_color:\n            args.color = False", "        if args.no_color and args.color != 'auto':\n            args.color = False")
